@@ -1739,6 +1739,9 @@ def run(ctx):
     rule_elimination(ctx)
     rule_contains(ctx)
     rule_binding(ctx)
+    import c08
+
+    ctx.include("C18.6", "the reverse arrows `e --> x` / `e ==> x` are the forward assignment with the operands exchanged, for tuples as for scalars: the tuple remover then sees the same multi-assignment (shared with C08.1)", c08.rule_operator_chain, only=["grammar/substitution"])
     import c13
 
     ctx.include("C18.5", "a tuple declaration with an initialiser, `T (a, b) op e;`, declares every symbol and makes one multi-assignment with the operator written - the form the tuple remover expands element-wise (shared with C13.1)", lambda c: c13.eval_declaration_split(c, "C13.1"))
